@@ -607,6 +607,16 @@ pub fn run_c02(ctx: &mut Ctx, known: &Known) {
             }
         }
     }
+    // numeric predicates on a bare field against unsigned values beyond i64::MAX
+    {
+        let y = |t: &str| -> Yaml { serde_yaml::from_str(t).expect("yaml") };
+        let udocs: Vec<Yaml> = vec![y("{n: 18446744073709551615}"), y("{n: 9223372036854775808}"), y("{n: 9223372036854775807}"), y("{n: 100}"), y("{n: 5}"), y("{n: -1}"), y("{n: '18446744073709551615'}"), y("{}")];
+        for body in ["{n: '>100'}", "{n: '>=5'}", "{n: '<100'}", "{n: '<=9223372036854775807'}", "{n: '>9223372036854775807'}", "{n: 18446744073709551615}", "{n: '=18446744073709551615'}", "{n: [5, 18446744073709551615]}", "{not(n): '>100'}"] {
+            for cond in [gen::Cond::Id("A".into()), gen::Cond::Not(Box::new(gen::Cond::Id("A".into())))] {
+                fixed.push((vec![("A".into(), y(body))], cond, udocs.clone()));
+            }
+        }
+    }
     let n_fixed = fixed.len();
     for i in 0..n + n_fixed {
         let mut r = Rng::new(ctx.seed.wrapping_mul(6151).wrapping_add(i as u64));
